@@ -38,6 +38,7 @@ const (
 	PStopStateTriggered
 	PStopWhileChanBlocked
 	PFlood
+	PTCPStalledPrefix
 )
 
 var ProbeNames = map[int]string{
@@ -61,6 +62,7 @@ var ProbeNames = map[int]string{
 	PStopStateTriggered:    "stop_placed_by_internal_state_trigger",
 	PStopWhileChanBlocked:  "stop_while_sut_task_blocked_on_channel",
 	PFlood:                 "burst_of_8_to_40_datagrams_from_one_client",
+	PTCPStalledPrefix:      "tcp_frame_prefix_split_across_the_read_timeout",
 }
 
 var scenarioNames = [...]string{"nbns-server", "nbns-udp+tcp", "llmnr-server", "llmnr-client", "llmnr-client+server", "nbns-challenger"}
